@@ -70,6 +70,18 @@ def jobs_C06(tier, scale):
                  max_size=40 if tier == "quick" else 70, label="pairs of histories: rebuilt / one difference / independent / copies")]
 
 
+def jobs_C07(tier, scale):
+    mix = dict(add=30, add1=5, recip=3, rm=8, rmk=3, setl=6, setm=5, setw=5, rmloops=2, rmvtx=4, clear=2, resize=5, bad=30, shrink=4)
+    c = dict(prop="C07", classes=_classes(["DS", "US", "DM", "UM", "DW", "UW", "DL", "UL"], ["int", "string"]), mix=_mix(mix), zero_pct="8")
+    c2 = dict(c)
+    c2["final"] = "badall"
+    q = 8 if tier == "quick" else 16
+    return [dict(engine="pbt", executor="bad", config="san", gen="hist", cfg=c, cases=_n(tier, 12000, 300000, scale), shards=q, max_size=40 if tier == "quick" else 70,
+                 label="rejected calls interleaved with valid ones (random cells of the matrix)"),
+            dict(engine="pbt", executor="bad", config="san", gen="hist", cfg=c2, cases=_n(tier, 1600, 40000, scale), shards=q, max_size=25,
+                 label="complete matrix {entry point x argument position x bad value x flags} at the final state of each history")]
+
+
 RULE_HIST = ("rapidcheck-generated call histories (0-%d ops, sizes 0-12) executed against the real class and an independent std::map model; "
              "all public observers compared after every step. ")
 
@@ -96,6 +108,13 @@ PROPS = {
                 "mutated afterwards. Oracle: ==, != in both directions and reflexivity against value equality of the two models; a copy shows the same observations and never moves when "
                 "the other side is mutated. Non-trivial: equality decided after a removal in either history, a rebuilt history containing removals, or models differing in exactly one place.",
                 assumptions=["duplicate-free histories (force off)", "weights exactly representable"]),
+    "C07": dict(jobs=jobs_C07, min_nontrivial=dict(quick=500, thorough=5000),
+                rule="rapidcheck-generated histories on the eight classes in which rejected calls are mixed with valid ones: random cells of the matrix {public entry point taking a vertex index, "
+                "getSubgraph / getSubgraphWithRemap with a bad member, the six breadth-first searches, Dijkstra} x {argument position(s)} x {n, n+1, n+7, UINT_MAX} x {every flag combination incl. force=true}, "
+                "resize to fewer vertices, unforced setEdgeLabel on an absent edge; plus the complete matrix at the final state of each history of the second job. Oracle: exact exception type "
+                "(std::out_of_range resp. std::invalid_argument), exact snapshot of all observers identical before/after, no sanitizer or libstdc++ debug-mode report. "
+                "Non-trivial: a rejected call in a state with >=1 edge followed by >=1 valid mutator.",
+                assumptions=["find...FromPredecessors helpers are not part of the matrix (they take a caller-supplied table, not named by the property)"]),
     "C16": dict(jobs=jobs_C16, min_nontrivial=dict(quick=300, thorough=3000),
                 rule=RULE_HIST % 80 + "Non-trivial: a forced duplicate exists and is later removed by removeDuplicateEdges or removeEdge.",
                 assumptions=["all copies of a pair carry the same label/weight/multiplicity (by construction)", "multigraph: weaker reading (deduplicated graph holds each pair once with the multiplicity its copies carried)"]),
